@@ -5,10 +5,11 @@ from .core import fresh, sort_of, RefS, Unsupported
 
 class Snap:
     """immutable snapshot of the heap (for old(), labels, invariant base)"""
-    __slots__ = ("heap", "epoch", "cells", "bound", "nnew")
+    __slots__ = ("heap", "epoch", "cells", "bound", "nnew", "locals")
 
-    def __init__(self, heap, epoch, cells, bound=None, nnew=0):
+    def __init__(self, heap, epoch, cells, bound=None, nnew=0, locals=None):
         self.nnew = nnew
+        self.locals = locals
         self.heap = heap
         self.epoch = epoch
         self.cells = cells
@@ -59,6 +60,9 @@ class State:
         self.cm_stack = ()
         self.wrote = frozenset()    # heap keys written on this path since entry
         self.constructing = frozenset()
+        self.step_base = z3.IntVal(0)
+        self.step_snap = None
+        self.step_no = 0
         self.clock = z3.IntVal(0)   # allocation clock (birth stamp of the youngest object created by me)
         self.epoch_bound = z3.IntVal(0)   # everything stored in the initial arrays of this epoch was born <= this
 
@@ -88,6 +92,9 @@ class State:
         s.wrote = self.wrote
         s.clock = self.clock
         s.constructing = self.constructing
+        s.step_base = self.step_base
+        s.step_snap = self.step_snap
+        s.step_no = self.step_no
         s.epoch_bound = self.epoch_bound
         return s
 
@@ -96,7 +103,8 @@ class State:
         return self.frames[-1]
 
     def snap(self):
-        return Snap(dict(self.heap), self.epoch, dict(self.cells), self.clock, len(self.new_objs))
+        return Snap(dict(self.heap), self.epoch, dict(self.cells), self.clock, len(self.new_objs),
+                    dict(self.frames[0].locals) if self.frames else None)
 
     def assume(self, cond):
         if z3.is_true(cond):
